@@ -5,7 +5,7 @@ out=$1; shift
 cd /verif
 H=$(git -C /repo rev-parse HEAD)
 for s in "$@"; do
-  p=${s%-*}
+  p=${s%%-*}
   wt=/tmp/seed/$p
   git -C $wt checkout -q -- . 2>/dev/null; git -C $wt checkout -q --detach $H 2>/dev/null
   if ! git -C $wt apply /verif/seeded/$s/patch.diff 2>/dev/null; then printf "%s\tpatch does not apply to the repaired tree\t-\t-\n" $s >> $out; continue; fi
